@@ -315,19 +315,23 @@ type typeGuesser struct {
 }
 
 func (g *typeGuesser) Guess() (SchemaType, error) {
-	m := map[SchemaType]func() bool{
-		SchemaTypeString:  g.isString,
-		SchemaTypeInteger: g.isInteger,
-		SchemaTypeFloat:   g.isFloat,
-		SchemaTypeBoolean: g.isBoolean,
-		SchemaTypeObject:  g.isObject,
-		SchemaTypeArray:   g.isArray,
-		SchemaTypeNull:    g.isNull,
+	// The order is important: a string can look like a number.
+	checks := []struct {
+		t  SchemaType
+		fn func() bool
+	}{
+		{SchemaTypeString, g.isString},
+		{SchemaTypeBoolean, g.isBoolean},
+		{SchemaTypeNull, g.isNull},
+		{SchemaTypeObject, g.isObject},
+		{SchemaTypeArray, g.isArray},
+		{SchemaTypeInteger, g.isInteger},
+		{SchemaTypeFloat, g.isFloat},
 	}
 
-	for t, fn := range m {
-		if fn() {
-			return t, nil
+	for _, c := range checks {
+		if c.fn() {
+			return c.t, nil
 		}
 	}
 	return SchemaTypeUndefined, errs.ErrUnableToDetermineTheTypeOfJsonValue.F()
